@@ -69,7 +69,6 @@ DETECTION = {
               "(kernel differs from the reference expectile model): HDC_REPO=<worktree> ./check C03 exits 1",
     "C03-R2": "not flagged by the C03 check (its reference model shares ws2d with the kernel); caught by the C01 check on graded weight "
               "vectors whose sum is <= 1: HDC_REPO=<worktree> ./check C01 exits 1",
-    "C06-R2": "missed: offset commutation of robust GCV is not encoded (DESIGN C06), and C05 has no reference robust loop",
 }
 
 
